@@ -136,9 +136,9 @@ for g in ["isJavaTestFile", "isJavaTestPackage", "JavaTestFileFilter", "JavaCode
 row(props=["C03", "C04"], func=CD + "(CodeFunction).GetAllCallString", params=["m"], kind="returns",
     expr='collect(m.FunctionCalls, c, c.NodeName != "", ite(c.FunctionName == "", c.Package + "." + c.NodeName, c.Package + "." + c.NodeName + "." + c.FunctionName))',
     what="callee list = every call with a receiver type, by full name, in order")
-row(props=["C03", "C04", "C18"], func=CD + "(CodeCall).BuildFullMethodName", params=["c"], kind="returns",
+row(props=["C03", "C04", "C18", "C11"], func=CD + "(CodeCall).BuildFullMethodName", params=["c"], kind="returns",
     expr='ite(c.FunctionName == "", c.Package + "." + c.NodeName, c.Package + "." + c.NodeName + "." + c.FunctionName)', what="full name of a callee")
-row(props=["C03", "C04", "C18"], func=CD + "(CodeFunction).BuildFullMethodName", params=["m", "node"], kind="returns", expr='node.Package + "." + node.NodeName + "." + m.Name', what="full name of a method")
+row(props=["C03", "C04", "C18", "C11"], func=CD + "(CodeFunction).BuildFullMethodName", params=["m", "node"], kind="returns", expr='node.Package + "." + node.NodeName + "." + m.Name', what="full name of a method")
 row(props=["C04"], func="pkg/application/rcall.BuildMethodCallMap", params=["structs", "project"], kind="emits", target="mapstore:makemap1", tag={}, total=1,
     each={"as": "clz,method,c"},
     when='c.NodeName != "" && !(lookup(project, ite(c.FunctionName == "", c.Package + "." + c.NodeName, c.Package + "." + c.NodeName + "." + c.FunctionName)) < 1)',
@@ -406,6 +406,26 @@ WORD = '!(ite(call("regexp.(Regexp).MatchString", call("regexp.MustCompile", "^[
 for idx, c in [(2, "lookup(call(\"makemap1\"), w) == 0"), (3, "!(lookup(call(\"makemap1\"), w) == 0)")]:
     row(props=["C18"], func="pkg/application/concept.SegmentCamelcase", params=["names"], kind="emits", target="mapstore:makemap1", tag={}, total=4, index=idx, each={"as": "name,w"},
         when=WORD + " && " + c, fields={"key": "w"}, what="every non-empty word of every method name is counted under itself, and the empty string is no word")
+
+T17 = "trimSpace(GetText(token))"
+row(props=["C17"], func="pkg/application/todo/astitodo.ParseComment", params=["token", "filename"], kind="callarg", callee="pkg/application/todo/astitodo.IsTodoIdentifier", arg=0,
+    assume='hasPrefix(%s, "//") || hasPrefix(%s, "/*") || hasPrefix(%s, "#")' % (T17, T17, T17),
+    expr='ite(hasPrefix(%s, "#"), trimSpace(call("slice", %s, 1, len(%s))), trimSpace(call("slice", %s, 2, len(%s))))' % (T17, T17, T17, T17, T17),
+    what="the marker test looks at the comment's text after ONE comment marker (// /* #, which the comment lexer guarantees) and blanks: a second marker-like sequence is text")
+
+row(props=["C17"], func="varfield:cmd.todoCmd.Run", params=["cmd", "args"], kind="callarg", callee="pkg/application/todo.(TodoApp).AnalysisPath", arg=2,
+    expr='call("strings.Split", global("cmd.todoCmdConfig").Extensions, ",")', what="the selected extensions are the entries of --ext as given (the match against the file name is case-sensitive)")
+
+row(props=["C19"], func="varfield:analysis/dep/app.depsCmd.Run", params=["cmd", "args"], kind="callarg", callee="pkg/adapter/cocafile.GetFilesWithFilter", arg=1,
+    expr='global("pkg/adapter/cocafile.JavaFileFilter")', no_inline=["pkg/adapter/cocafile.GetFilesWithFilter"],
+    what="the imports are collected from every Java source file of the project, test sources included (the all-Java filter, not the code-only one)")
+
+IGN = 'exists(list(".git", ".svn", ".hg", ".idea", "coca_reporter"), x, x == base(dir))'
+row(props=["C16"], func="cmd.processDirs", params=["dirs"], kind="callguard", callee="cmd.runProcessor", in_loop=True, each={"as": "dir"},
+    expr="!(%s)" % IGN, what="the counter is run for exactly the subdirectories that get a row (every one that is not a VCS/IDE/report directory), so each row's report file is written afresh — also for an empty directory, whose report would otherwise be a left-over of an earlier run")
+row(props=["C16"], func="cmd.processDirs", params=["dirs"], kind="returns",
+    expr='collect(dirs, dir, !(%s), call("path/filepath.FromSlash", global("cmd/config.CocaConfig").ReporterPath + "/cloc/" + base(dir) + ".json"))' % IGN,
+    what="one report file per subdirectory that is not a VCS/IDE/report directory, named after the directory")
 
 json.dump({"e5": rows}, open(os.path.join(os.path.dirname(os.path.dirname(os.path.abspath(__file__))), "spec", "e5.json"), "w"), indent=1, ensure_ascii=False)
 print(len(rows), "rows")
